@@ -519,19 +519,35 @@ pub fn w(prop: &str, seed: u64) -> RunDesc {
     // desired: a weak pointer to the other object
     v.push(o(K::Downgrade, 4, 2, 0, 0));
     let which = rng.below(3);
-    match which {
-        0 => v.push(o(K::CasW, WROOT0, 0, 2, 0)),
-        1 => v.push(o(K::CasW, WROOT0, 0, 2, 1)),
-        _ => v.push(o(K::CasTagW, WROOT0, 0, 1 + rng.below(3) as u32, 0)),
+    let attempts = 1 + rng.below(4);
+    for i in 0..attempts {
+        match which {
+            0 => v.push(o(K::CasW, WROOT0, 0, 2, 0)),
+            1 => v.push(o(K::CasW, WROOT0, 0, 2, 1)),
+            _ => v.push(o(K::CasTagW, WROOT0, 0, 1 + rng.below(3) as u32, 0)),
+        }
+        if i + 1 < attempts {
+            // try again with the same (stale-stamped) expected after the flipper had a turn
+            v.push(o(K::WSnapOf, 1, 0, 0, 0));
+            if prov != 2 {
+                v.push(o(K::Downgrade, 0, 1, 0, 0));
+                v.push(o(K::WSnapOf, 1, 0, 0, 0));
+            }
+            v.push(o(K::Downgrade, 4, 2, 0, 0));
+        }
     }
     v.push(o(K::LoadW, WROOT0, 0, 2, 0));
     v.push(o(K::Unpin, 0, 0, 0, 0));
     d.threads.push(thread(0, "actor", v));
-    if rng.chance(0.5) {
-        // a concurrent writer between epochs
-        let mut c = rounds(1 + rng.below(3) as usize);
-        c.extend([o(K::Pin, 0, 0, 0, 0), o(K::LoadW, WROOT0, 0, 0, 0), o(K::WsCounted, 0, 0, 0, 0), o(K::SwapW, WROOT0, 0, 0, 0), o(K::Unpin, 0, 0, 0, 0)]);
-        d.threads.push(thread(0, "concurrent", c));
+    if rng.chance(0.6) {
+        // a concurrent writer flipping the cell between weak pointers to P and to another object
+        let mut c = rounds(rng.below(3) as usize);
+        c.extend([o(K::New, 0, NONE_SLOT, 3, 0), o(K::Downgrade, 0, 0, 0, 0), o(K::Pin, 0, 0, 0, 0)]);
+        for _ in 0..2 + rng.below(6) {
+            c.push(o(K::SwapW, WROOT0, 0, 0, 0));
+        }
+        c.push(o(K::Unpin, 0, 0, 0, 0));
+        d.threads.push(thread(0, "flipper", c));
     }
     d.params = J::obj().set("template", "W expected-provenance for AtomicWeak CAS").set("provenance", prov).set("stamped_content", stamped_content).set("op", which);
     d
